@@ -123,7 +123,7 @@ theorem recordStep_good {sf : Nat} {l : LoopSt ℝ} {density : ℝ}
 theorem iterate_good {sf : Nat} {l : LoopSt ℝ} (hg : Good l.s l.ws)
     (hf : l.flt.prevMach = 1 ∨ ¬ l.flt.prevPos.x < l.s.pos.x) :
     ∃ l', iterate rEx fRANGE sf l = .ok l' ∧ Good l'.s l'.ws ∧ l'.flt.prevMach = 1 ∧
-      l'.s.pos.x = l.s.pos.x + 1 ∧ l'.mach = 1 := by
+      l'.s.pos.x = l.s.pos.x + 1 ∧ l'.mach = 1 ∧ l'.lastX = l.s.pos.x := by
   obtain ⟨p, hp, hg', hx, _, hm, hs⟩ := physStep_good hg
   obtain ⟨flt', rows, hr, hpm⟩ := recordStep_good (sf := sf) (l := l) (density := p.density) hf
   have hlim : limitReason rEx.cfg rEx.alt0 p.out.speed p.out.st.pos.y = none := by
@@ -136,32 +136,40 @@ theorem iterate_good {sf : Nat} {l : LoopSt ℝ} (hg : Good l.s l.ws)
   rw [hm, hr]
   dsimp only
   rw [hlim]
-  exact ⟨_, rfl, hg', hpm, hx, rfl⟩
+  exact ⟨_, rfl, hg', hpm, hx, rfl, rfl⟩
 
-theorem loop_good {sf : Nat} {bound : ℝ} : ∀ (fuel : Nat) (l : LoopSt ℝ), Good l.s l.ws →
-    (l.flt.prevMach = 1 ∨ ¬ l.flt.prevPos.x < l.s.pos.x) → (l.mach = 1 ∨ l.s.pos.x ≤ bound) →
-    bound < l.s.pos.x + fuel →
-    ∃ l', loop rEx fRANGE sf bound (fuel + 1) l = .ok l' ∧ l'.mach = 1 := by
+theorem loop_good {sf : Nat} {bound maxRange : ℝ} : ∀ (fuel : Nat) (l : LoopSt ℝ), Good l.s l.ws →
+    (l.flt.prevMach = 1 ∨ ¬ l.flt.prevPos.x < l.s.pos.x) →
+    (l.mach = 1 ∨ l.s.pos.x ≤ bound ∨ l.lastX < maxRange) →
+    l.s.pos.x - 1 ≤ l.lastX → bound < l.s.pos.x + fuel → maxRange + 1 ≤ l.s.pos.x + fuel →
+    ∃ l', loop rEx fRANGE sf bound maxRange (fuel + 1) l = .ok l' ∧ l'.mach = 1 := by
   intro fuel
   induction fuel with
   | zero =>
-    intro l _ _ hm hb
+    intro l _ _ hm hlast hb hb2
     have hb' : bound < l.s.pos.x := by simpa using hb
+    have hl' : maxRange ≤ l.lastX := by
+      have : maxRange + 1 ≤ l.s.pos.x := by simpa using hb2
+      linarith
     refine ⟨l, ?_, ?_⟩
-    · unfold loop; rw [if_neg (not_le.mpr hb')]
-    · rcases hm with hm | hm
+    · unfold loop
+      rw [if_neg (by rw [not_or, not_le, not_lt]; exact ⟨hb', hl'⟩)]
+    · rcases hm with hm | hm | hm
       · exact hm
       · linarith
+      · linarith
   | succ fuel ih =>
-    intro l hg hf hm hb
+    intro l hg hf hm hlast hb hb2
     unfold loop
-    by_cases hx : l.s.pos.x ≤ bound
+    by_cases hx : l.s.pos.x ≤ bound ∨ l.lastX < maxRange
     · rw [if_pos hx]
-      obtain ⟨l1, h1, hg1, hf1, hx1, hm1⟩ := iterate_good (sf := sf) hg hf
+      obtain ⟨l1, h1, hg1, hf1, hx1, hm1, hl1⟩ := iterate_good (sf := sf) hg hf
       rw [h1]
       dsimp only
       apply ih l1 hg1 (Or.inl hf1) (Or.inl hm1)
-      rw [hx1]; push_cast at hb; linarith
+      · rw [hx1, hl1]; linarith
+      · rw [hx1]; push_cast at hb; linarith
+      · rw [hx1]; push_cast at hb2; linarith
     · rw [if_neg hx]
       refine ⟨l, rfl, ?_⟩
       rcases hm with hm | hm
@@ -172,10 +180,16 @@ theorem integrate_ex (maxRange step : ℝ) (fuel sf : Nat) (hstep : 0 < step) (h
     ∃ rows, integrate rEx 0 maxRange step fRANGE 0 (fuel + 1) sf = .ok rows := by
   have hcs : rEx.cfg.calcStep = 1 := by norm_num [Config.calcStep, rEx]
   have hmin : minOf rEx.cfg.calcStep step ≤ 1 := by rw [← hcs]; exact minOf_le_left _ _
-  obtain ⟨l', hl', hm⟩ := loop_good (sf := sf) (bound := maxRange + minOf rEx.cfg.calcStep step) fuel
+  have hx0 : (l0 rEx 0 step).s.pos.x = 0 := lit0
+  have hl0 : (l0 rEx 0 step).lastX = 0 := lit0
+  obtain ⟨l', hl', hm⟩ := loop_good (sf := sf) (bound := maxRange + minOf rEx.cfg.calcStep step)
+    (maxRange := maxRange) fuel
     (l0 rEx 0 step) good_init (Or.inr (lt_irrefl _))
-    (Or.inr (by rw [show (l0 rEx 0 step).s.pos.x = 0 from lit0]; have := minOf_pos (show 0 < rEx.cfg.calcStep by rw [hcs]; norm_num) hstep; linarith))
-    (by rw [show (l0 rEx 0 step).s.pos.x = 0 from lit0]; linarith)
+    (Or.inr (Or.inl (by
+      rw [hx0]; have := minOf_pos (show 0 < rEx.cfg.calcStep by rw [hcs]; norm_num) hstep; linarith)))
+    (by rw [hx0, hl0]; norm_num)
+    (by rw [hx0]; linarith)
+    (by rw [hx0]; linarith)
   unfold l0 at hl'
   unfold integrate
   dsimp only
@@ -194,8 +208,5 @@ theorem integrate_ex (maxRange step : ℝ) (fuel sf : Nat) (hstep : 0 < step) (h
 
 
 theorem calcStep_ex : rEx.cfg.calcStep = 1 := by norm_num [Config.calcStep, rEx]
-
-theorem one_le_minOf_ex {step : ℝ} (h : 1 ≤ step) : 1 ≤ minOf rEx.cfg.calcStep step := by
-  rw [calcStep_ex]; unfold minOf; split_ifs <;> linarith
 
 end BC.Lemmas.C03
